@@ -1,1 +1,588 @@
-(* stub: to be written *)
+(* C19: Python's call-binding algorithm (PEP 3102 / PEP 570) over signatures, a decision procedure for
+   "every call form the original accepts, the substitute accepts", its soundness for ALL call forms
+   (unbounded number of positionals, arbitrary keyword names) and a computed counterexample.
+
+   A signature is what inspect.signature returns, reduced to (name, kind, has-default) per parameter.
+   A call form is (number of positional arguments, list of keyword names).  Argument VALUES are
+   irrelevant to binding: CPython's binder only looks at positions and keyword names. *)
+From Coq Require Import String Ascii List Bool Arith Lia.
+Import ListNotations.
+
+Inductive kind := PosOnly | PosOrKw | VarPos | KwOnly | VarKw.
+Record param := { p_name : string; p_kind : kind; p_default : bool }.
+Record call := { c_npos : nat; c_kws : list string }.
+
+Definition kind_eqb (a b : kind) : bool :=
+  match a, b with
+  | PosOnly, PosOnly | PosOrKw, PosOrKw | VarPos, VarPos | KwOnly, KwOnly | VarKw, VarKw => true
+  | _, _ => false
+  end.
+
+Definition mem (s : string) (l : list string) : bool := existsb (String.eqb s) l.
+
+Definition is_kind (k : kind) (p : param) : bool := kind_eqb (p_kind p) k.
+Definition is_positional (p : param) : bool := is_kind PosOnly p || is_kind PosOrKw p.
+Definition names (l : list param) : list string := map p_name l.
+
+Definition positional (sig : list param) : list param := filter is_positional sig.
+Definition kwonly (sig : list param) : list param := filter (is_kind KwOnly) sig.
+Definition has_varpos (sig : list param) : bool := existsb (is_kind VarPos) sig.
+Definition has_varkw (sig : list param) : bool := existsb (is_kind VarKw) sig.
+
+(* ---- state of the binder after n positional arguments have been consumed *)
+(* positional parameters that received a positional argument / that did not *)
+Definition pos_filled (sig : list param) (n : nat) : list param := firstn n (positional sig).
+Definition pos_open (sig : list param) (n : nat) : list param := skipn n (positional sig).
+(* a keyword with one of these names: "got multiple values for argument" (even with **kwargs) *)
+Definition dup_names (sig : list param) (n : nat) : list string :=
+  names (filter (is_kind PosOrKw) (pos_filled sig n)).
+(* parameters a keyword can still fill *)
+Definition kw_fillable (sig : list param) (n : nat) : list param :=
+  filter (is_kind PosOrKw) (pos_open sig n) ++ kwonly sig.
+Definition kw_targets (sig : list param) (n : nat) : list string := names (kw_fillable sig n).
+(* too many positional arguments unless *args *)
+Definition arity_ok (sig : list param) (n : nat) : bool :=
+  Nat.leb n (length (positional sig)) || has_varpos sig.
+(* keyword k: rejected when it names an already filled parameter; otherwise it must name a fillable
+   parameter, or fall into **kwargs (this includes names of positional-only parameters, PEP 570) *)
+Definition kw_ok (sig : list param) (n : nat) (k : string) : bool :=
+  negb (mem k (dup_names sig n)) && (mem k (kw_targets sig n) || has_varkw sig).
+(* keyword names that MUST be present: unfilled parameters without default *)
+Definition required (sig : list param) (n : nat) : list string :=
+  names (filter (fun p => negb (p_default p)) (kw_fillable sig n)).
+(* a positional-only parameter without default that got no positional argument can never be filled *)
+Definition unfillable (sig : list param) (n : nat) : bool :=
+  existsb (fun p => is_kind PosOnly p && negb (p_default p)) (pos_open sig n).
+
+Definition binds (sig : list param) (c : call) : bool :=
+  let n := c_npos c in
+  arity_ok sig n && negb (unfillable sig n)
+  && forallb (kw_ok sig n) (c_kws c)
+  && forallb (fun r => mem r (c_kws c)) (required sig n).
+
+(* ---- well-formedness enforced by CPython (compiler for `def`, inspect.Signature.__init__ otherwise) *)
+Definition kind_rank (k : kind) : nat :=
+  match k with PosOnly => 0 | PosOrKw => 1 | VarPos => 2 | KwOnly => 3 | VarKw => 4 end.
+Fixpoint sorted_kinds (l : list param) : bool :=
+  match l with
+  | [] => true
+  | p :: r => forallb (fun q => Nat.leb (kind_rank (p_kind p)) (kind_rank (p_kind q))) r && sorted_kinds r
+  end.
+Fixpoint nodupb (l : list string) : bool :=
+  match l with [] => true | x :: r => negb (mem x r) && nodupb r end.
+Definition at_most_one (k : kind) (sig : list param) : bool :=
+  Nat.leb (length (filter (is_kind k) sig)) 1.
+(* "non-default argument follows default argument" among positional parameters *)
+Fixpoint defaults_ok (l : list param) : bool :=
+  match l with
+  | [] => true
+  | p :: r => (if p_default p then forallb p_default r else true) && defaults_ok r
+  end.
+Definition var_no_default (sig : list param) : bool :=
+  forallb (fun p => negb ((is_kind VarPos p || is_kind VarKw p) && p_default p)) sig.
+Definition wf_sigb (sig : list param) : bool :=
+  sorted_kinds sig && nodupb (names sig) && at_most_one VarPos sig && at_most_one VarKw sig
+  && defaults_ok (positional sig) && var_no_default sig.
+Definition wf_sig (sig : list param) : Prop := wf_sigb sig = true.
+
+(* ---- the decision procedure: a finite set of probe call forms that is exhaustive (proved below) *)
+Fixpoint rep (n : nat) : string := match n with O => EmptyString | S m => String "z"%char (rep m) end.
+Definition maxlen (l : list string) : nat := fold_right (fun s m => Nat.max (String.length s) m) 0 l.
+(* a keyword name occurring in neither signature *)
+Definition fresh (l : list string) : string := rep (S (maxlen l)).
+
+Definition allnames (w o : list param) : list string := names o ++ names w.
+Definition probe_names (w o : list param) : list string := allnames w o ++ [fresh (allnames w o)].
+Definition bound (w o : list param) : nat :=
+  S (Nat.max (length (positional o)) (length (positional w))).
+Definition mk (n : nat) (K : list string) : call := {| c_npos := n; c_kws := nodup string_dec K |}.
+(* for every number of positionals up to one beyond both signatures: the minimal keyword set the
+   original demands, and that set plus one more keyword (every known name, and one unknown name) *)
+Definition cands (w o : list param) : list call :=
+  flat_map (fun n => mk n (required o n) :: map (fun k => mk n (k :: required o n)) (probe_names w o))
+           (seq 0 (S (bound w o))).
+Definition is_cex (w o : list param) (c : call) : bool := binds o c && negb (binds w c).
+
+Definition subsumes_witness (w o : list param) : option call := find (is_cex w o) (cands w o).
+Definition sig_subsumes (w o : list param) : bool :=
+  match subsumes_witness w o with None => true | Some _ => false end.
+
+(* ================================================================== proofs *)
+Lemma mem_In s l : mem s l = true <-> In s l.
+Proof.
+  unfold mem. rewrite existsb_exists. split.
+  - intros [x [Hx He]]. apply String.eqb_eq in He. now subst.
+  - intro H. exists s. split; [exact H | apply String.eqb_refl].
+Qed.
+
+Lemma mem_false s l : mem s l = false <-> ~ In s l.
+Proof.
+  rewrite <- mem_In. destruct (mem s l); split; intro H.
+  - discriminate.
+  - exfalso. now apply H.
+  - intro; discriminate.
+  - reflexivity.
+Qed.
+
+Lemma forallb_false_ex {A} (f : A -> bool) l :
+  forallb f l = false -> exists x, In x l /\ f x = false.
+Proof.
+  induction l as [|a l IH]; simpl; [discriminate|].
+  destruct (f a) eqn:Ea; simpl.
+  - intro H. destruct (IH H) as [x [Hx Hf]]. exists x. auto.
+  - intros _. exists a. auto.
+Qed.
+
+Lemma In_firstn {A} (x : A) n l : In x (firstn n l) -> In x l.
+Proof.
+  revert l. induction n as [|n IH]; intros [|a l]; simpl; try tauto.
+  intros [H|H]; auto.
+Qed.
+
+Lemma In_skipn {A} (x : A) n l : In x (skipn n l) -> In x l.
+Proof.
+  revert l. induction n as [|n IH]; intros [|a l]; simpl; auto.
+Qed.
+
+(* binds, as a conjunction of its four reasons to reject *)
+Lemma binds_true_iff sig n K :
+  binds sig {| c_npos := n; c_kws := K |} = true <->
+  arity_ok sig n = true /\ unfillable sig n = false /\
+  (forall k, In k K -> kw_ok sig n k = true) /\
+  (forall r, In r (required sig n) -> In r K).
+Proof.
+  unfold binds; simpl. rewrite !andb_true_iff, negb_true_iff, !forallb_forall.
+  split.
+  - intros [[[Ha Hu] Hk] Hr]. repeat split; auto. intros r Hin. apply mem_In. auto.
+  - intros (Ha & Hu & Hk & Hr). repeat split; auto. intros r Hin. apply mem_In. auto.
+Qed.
+
+(* keyword names the binder distinguishes are names of the signature *)
+Lemma dup_names_sub sig n k : In k (dup_names sig n) -> In k (names sig).
+Proof.
+  unfold dup_names, names, pos_filled, positional. rewrite !in_map_iff.
+  intros [p [Hn Hp]]. exists p. split; auto.
+  apply filter_In in Hp. destruct Hp as [Hp _]. apply In_firstn in Hp.
+  apply filter_In in Hp. tauto.
+Qed.
+
+Lemma kw_targets_sub sig n k : In k (kw_targets sig n) -> In k (names sig).
+Proof.
+  unfold kw_targets, kw_fillable, names, pos_open, positional, kwonly. rewrite !in_map_iff.
+  intros [p [Hn Hp]]. exists p. split; auto.
+  apply in_app_or in Hp. destruct Hp as [Hp|Hp].
+  - apply filter_In in Hp. destruct Hp as [Hp _]. apply In_skipn in Hp.
+    apply filter_In in Hp. tauto.
+  - apply filter_In in Hp. tauto.
+Qed.
+
+(* a name occurring nowhere in the signature is accepted exactly when there is **kwargs *)
+Lemma kw_ok_unknown sig n k : ~ In k (names sig) -> kw_ok sig n k = has_varkw sig.
+Proof.
+  intro H. unfold kw_ok.
+  assert (H1 : mem k (dup_names sig n) = false).
+  { apply mem_false. intro Hc. apply H. eapply dup_names_sub; eauto. }
+  assert (H2 : mem k (kw_targets sig n) = false).
+  { apply mem_false. intro Hc. apply H. eapply kw_targets_sub; eauto. }
+  now rewrite H1, H2.
+Qed.
+
+(* beyond the last positional parameter the number of positional arguments no longer matters *)
+Lemma binds_saturate sig n1 n2 K :
+  length (positional sig) < n1 -> length (positional sig) < n2 ->
+  binds sig {| c_npos := n1; c_kws := K |} = binds sig {| c_npos := n2; c_kws := K |}.
+Proof.
+  intros H1 H2.
+  assert (Ef : pos_filled sig n1 = pos_filled sig n2).
+  { unfold pos_filled. rewrite !firstn_all2 by lia. reflexivity. }
+  assert (Eo : pos_open sig n1 = pos_open sig n2).
+  { unfold pos_open. rewrite !skipn_all2 by lia. reflexivity. }
+  assert (Ea : arity_ok sig n1 = arity_ok sig n2).
+  { unfold arity_ok.
+    replace (Nat.leb n1 (length (positional sig))) with false by (symmetry; apply Nat.leb_gt; lia).
+    replace (Nat.leb n2 (length (positional sig))) with false by (symmetry; apply Nat.leb_gt; lia).
+    reflexivity. }
+  unfold binds; simpl.
+  unfold unfillable, required, kw_ok, kw_targets, kw_fillable, dup_names.
+  rewrite Ef, Eo, Ea. reflexivity.
+Qed.
+
+(* acceptance only needs: every given keyword is individually acceptable, and the required ones are there *)
+Lemma binds_shrink sig n K K' :
+  binds sig {| c_npos := n; c_kws := K |} = true ->
+  (forall k, In k K' -> kw_ok sig n k = true) ->
+  (forall r, In r (required sig n) -> In r K') ->
+  binds sig {| c_npos := n; c_kws := K' |} = true.
+Proof.
+  rewrite !binds_true_iff. intros (Ha & Hu & _ & _) Hk Hr. auto.
+Qed.
+
+(* a rejection is either independent of which (sub)set of keywords is given, or caused by one keyword *)
+Lemma binds_reject sig n K :
+  binds sig {| c_npos := n; c_kws := K |} = false ->
+  (forall K', (forall k, In k K' -> In k K) -> binds sig {| c_npos := n; c_kws := K' |} = false)
+  \/ (exists k, In k K /\ kw_ok sig n k = false).
+Proof.
+  intro H.
+  destruct (forallb (kw_ok sig n) K) eqn:Ek.
+  - left. intros K' Hsub.
+    destruct (binds sig {| c_npos := n; c_kws := K' |}) eqn:Eb; [|reflexivity].
+    exfalso. apply binds_true_iff in Eb. destruct Eb as (Ha & Hu & _ & Hr).
+    assert (Hb : binds sig {| c_npos := n; c_kws := K |} = true).
+    { apply binds_true_iff. repeat split; auto.
+      rewrite forallb_forall in Ek. exact Ek. }
+    congruence.
+  - right. apply forallb_false_ex in Ek. exact Ek.
+Qed.
+
+Lemma binds_has_bad_kw sig n K k :
+  In k K -> kw_ok sig n k = false -> binds sig {| c_npos := n; c_kws := K |} = false.
+Proof.
+  intros Hin Hk. destruct (binds sig {| c_npos := n; c_kws := K |}) eqn:Eb; [|reflexivity].
+  apply binds_true_iff in Eb. destruct Eb as (_ & _ & Hall & _). rewrite (Hall k Hin) in Hk. discriminate.
+Qed.
+
+(* the fresh name is fresh *)
+Lemma rep_length n : String.length (rep n) = n.
+Proof. induction n; simpl; auto. Qed.
+
+Lemma maxlen_ge s l : In s l -> String.length s <= maxlen l.
+Proof.
+  induction l as [|a l IH]; simpl; [tauto|].
+  intros [->|H]; [lia|]. specialize (IH H). lia.
+Qed.
+
+Lemma fresh_not_in l : ~ In (fresh l) l.
+Proof.
+  intro H. apply maxlen_ge in H. unfold fresh in H. rewrite rep_length in H. lia.
+Qed.
+
+Lemma In_cands w o n ks :
+  n <= bound w o ->
+  (ks = required o n \/ exists k, In k (probe_names w o) /\ ks = k :: required o n) ->
+  In (mk n ks) (cands w o).
+Proof.
+  intros Hn H. unfold cands. apply in_flat_map. exists n. split.
+  - apply in_seq. lia.
+  - destruct H as [->|[k [Hk ->]]]; [left; reflexivity|].
+    right. apply in_map_iff. exists k. auto.
+Qed.
+
+(* exhaustiveness of the probe set: any counterexample call form yields a probe that is one *)
+Lemma cex_reduces w o c :
+  binds o c = true -> binds w c = false ->
+  exists c', In c' (cands w o) /\ is_cex w o c' = true.
+Proof.
+  destruct c as [n0 K]. intros Ho0 Hw0.
+  (* 1. bring the number of positionals into the probed range *)
+  set (n := Nat.min n0 (bound w o)).
+  assert (Hn : n <= bound w o) by (unfold n; lia).
+  assert (Ho : binds o {| c_npos := n; c_kws := K |} = true).
+  { destruct (Nat.le_gt_cases n0 (bound w o)) as [Hle|Hgt].
+    - replace n with n0 by (unfold n; lia). exact Ho0.
+    - rewrite <- Ho0. apply binds_saturate; unfold n, bound in *; lia. }
+  assert (Hw : binds w {| c_npos := n; c_kws := K |} = false).
+  { destruct (Nat.le_gt_cases n0 (bound w o)) as [Hle|Hgt].
+    - replace n with n0 by (unfold n; lia). exact Hw0.
+    - rewrite <- Hw0. apply binds_saturate; unfold n, bound in *; lia. }
+  clearbody n. clear Ho0 Hw0 n0.
+  pose proof (proj1 (binds_true_iff o n K) Ho) as (Hoa & Hou & Hok & Hor).
+  unfold is_cex.
+  destruct (binds_reject w n K Hw) as [Hany | [k [HkK Hkbad]]].
+  - (* 2a. rejection independent of optional keywords: the minimal call form *)
+    exists (mk n (required o n)). split.
+    + apply In_cands; auto.
+    + unfold mk. rewrite andb_true_iff, negb_true_iff. split.
+      * eapply binds_shrink; [exact Ho| |].
+        -- intros k Hk. apply nodup_In in Hk. auto.
+        -- intros r Hr. apply nodup_In. exact Hr.
+      * apply Hany. intros k Hk. apply nodup_In in Hk. auto.
+  - (* 2b. one keyword k is rejected by the substitute *)
+    destruct (in_dec string_dec k (allnames w o)) as [Hknown | Hunknown].
+    + exists (mk n (k :: required o n)). split.
+      * apply In_cands; auto. right. exists k. split; auto.
+        unfold probe_names. apply in_or_app. auto.
+      * unfold mk. rewrite andb_true_iff, negb_true_iff. split.
+        -- eapply binds_shrink; [exact Ho| |].
+           ++ intros k' Hk'. apply nodup_In in Hk'. destruct Hk' as [<-|Hk']; auto.
+           ++ intros r Hr. apply nodup_In. right. exact Hr.
+        -- apply binds_has_bad_kw with (k := k); auto. apply nodup_In. left. reflexivity.
+    + (* k occurs in neither signature: any other such name behaves identically *)
+      set (f := fresh (allnames w o)).
+      assert (Hf : ~ In f (allnames w o)) by apply fresh_not_in.
+      unfold allnames in Hunknown, Hf.
+      assert (Hfo : kw_ok o n f = true).
+      { rewrite kw_ok_unknown by (intro; apply Hf; apply in_or_app; auto).
+        rewrite <- (kw_ok_unknown o n k) by (intro; apply Hunknown; apply in_or_app; auto). auto. }
+      assert (Hfw : kw_ok w n f = false).
+      { rewrite kw_ok_unknown by (intro; apply Hf; apply in_or_app; auto).
+        rewrite <- (kw_ok_unknown w n k) by (intro; apply Hunknown; apply in_or_app; auto). auto. }
+      exists (mk n (f :: required o n)). split.
+      * apply In_cands; auto. right. exists f. split; auto.
+        unfold probe_names. apply in_or_app. right. left. reflexivity.
+      * unfold mk. rewrite andb_true_iff, negb_true_iff. split.
+        -- eapply binds_shrink; [exact Ho| |].
+           ++ intros k' Hk'. apply nodup_In in Hk'. destruct Hk' as [<-|Hk']; auto.
+           ++ intros r Hr. apply nodup_In. right. exact Hr.
+        -- apply binds_has_bad_kw with (k := f); auto. apply nodup_In. left. reflexivity.
+Qed.
+
+(* MAIN (stronger than asked: no well-formedness and no NoDup needed, because `binds` only asks
+   membership questions of the keyword list) *)
+Theorem subsumes_sound_strong w o :
+  sig_subsumes w o = true -> forall c, binds o c = true -> binds w c = true.
+Proof.
+  unfold sig_subsumes, subsumes_witness. intros H c Ho.
+  destruct (binds w c) eqn:Hw; [reflexivity|]. exfalso.
+  destruct (cex_reduces w o c Ho Hw) as [c' [Hin Hcex]].
+  destruct (find (is_cex w o) (cands w o)) eqn:Ef; [discriminate|].
+  pose proof (find_none _ _ Ef c' Hin) as Hn. congruence.
+Qed.
+
+Theorem subsumes_sound : forall w o, wf_sig w -> wf_sig o -> sig_subsumes w o = true ->
+  forall c, NoDup (c_kws c) -> binds o c = true -> binds w c = true.
+Proof. intros w o _ _ H c _. apply subsumes_sound_strong. exact H. Qed.
+
+(* the computed counterexample is a real one, and a legal call (no repeated keyword) *)
+Theorem witness_sound w o c :
+  subsumes_witness w o = Some c -> binds o c = true /\ binds w c = false.
+Proof.
+  unfold subsumes_witness. intro H. apply find_some in H. destruct H as [_ H].
+  unfold is_cex in H. apply andb_true_iff in H. destruct H as [H1 H2].
+  apply negb_true_iff in H2. auto.
+Qed.
+
+Theorem witness_nodup w o c : subsumes_witness w o = Some c -> NoDup (c_kws c).
+Proof.
+  unfold subsumes_witness. intro H. apply find_some in H. destruct H as [H _].
+  unfold cands in H. apply in_flat_map in H. destruct H as [n [_ H]].
+  destruct H as [<-|H]; [apply NoDup_nodup|].
+  apply in_map_iff in H. destruct H as [k [<- _]]. apply NoDup_nodup.
+Qed.
+
+(* completeness: the procedure answers false only with a counterexample in hand, so it is exact *)
+Theorem subsumes_complete w o :
+  sig_subsumes w o = false ->
+  exists c, subsumes_witness w o = Some c /\ NoDup (c_kws c) /\ binds o c = true /\ binds w c = false.
+Proof.
+  unfold sig_subsumes. destruct (subsumes_witness w o) as [c|] eqn:E; [|discriminate].
+  intros _. exists c. split; [reflexivity|]. split; [eapply witness_nodup; eauto|].
+  eapply witness_sound; eauto.
+Qed.
+
+Theorem subsumes_iff w o :
+  sig_subsumes w o = true <-> (forall c, binds o c = true -> binds w c = true).
+Proof.
+  split; [apply subsumes_sound_strong|].
+  intro H. destruct (sig_subsumes w o) eqn:E; [reflexivity|].
+  destruct (subsumes_complete w o E) as [c (_ & _ & Ho & Hw)]. rewrite (H c Ho) in Hw. discriminate.
+Qed.
+
+
+(* every probe that is a counterexample (the harness picks the most natural-looking one to report) *)
+Definition all_witnesses (w o : list param) : list call := filter (is_cex w o) (cands w o).
+
+Theorem all_witnesses_sound w o c :
+  In c (all_witnesses w o) -> NoDup (c_kws c) /\ binds o c = true /\ binds w c = false.
+Proof.
+  unfold all_witnesses. intro H. apply filter_In in H. destruct H as [Hin H]. split.
+  - unfold cands in Hin. apply in_flat_map in Hin. destruct Hin as [n [_ Hin]].
+    destruct Hin as [<-|Hin]; [apply NoDup_nodup|].
+    apply in_map_iff in Hin. destruct Hin as [k [<- _]]. apply NoDup_nodup.
+  - unfold is_cex in H. apply andb_true_iff in H. destruct H as [H1 H2].
+    apply negb_true_iff in H2. auto.
+Qed.
+
+Theorem all_witnesses_nil_iff w o : all_witnesses w o = [] <-> sig_subsumes w o = true.
+Proof.
+  unfold all_witnesses, sig_subsumes, subsumes_witness. split.
+  - intro H. destruct (find (is_cex w o) (cands w o)) as [c|] eqn:E; [|reflexivity].
+    apply find_some in E. destruct E as [Hin Hc].
+    assert (Hf : In c (filter (is_cex w o) (cands w o))) by (apply filter_In; auto).
+    rewrite H in Hf. destruct Hf.
+  - destruct (find (is_cex w o) (cands w o)) as [c|] eqn:E; [discriminate|]. intros _.
+    destruct (filter (is_cex w o) (cands w o)) as [|c l] eqn:Ef; [reflexivity|].
+    assert (Hf : In c (filter (is_cex w o) (cands w o))) by (rewrite Ef; left; reflexivity).
+    apply filter_In in Hf. destruct Hf as [Hin Hc]. rewrite (find_none _ _ E c Hin) in Hc. discriminate.
+Qed.
+
+(* ================================================================== declarative reading of binds *)
+(* PEP 3102 / PEP 570 binding stated per argument and per parameter, by POSITION among the positional
+   parameters (`pos`), the way the language reference describes it:
+   1. no surplus positional argument unless *args;
+   2. a keyword never names a positional-or-keyword parameter that already got a positional argument
+      ("multiple values", even with **kwargs); it names a positional-or-keyword parameter beyond the
+      positional arguments, or a keyword-only parameter, or is collected by **kwargs (which includes
+      names of positional-only parameters);
+   3. every positional parameter without default is given positionally, or (unless positional-only) by keyword;
+   4. every keyword-only parameter without default is given by keyword. *)
+Definition Binds (sig : list param) (c : call) : Prop :=
+  let n := c_npos c in let K := c_kws c in let pos := positional sig in
+  (n <= length pos \/ has_varpos sig = true) /\
+  (forall k, In k K ->
+     (forall i p, i < n -> nth_error pos i = Some p -> p_kind p = PosOrKw -> p_name p <> k) /\
+     ((exists i p, n <= i /\ nth_error pos i = Some p /\ p_kind p = PosOrKw /\ p_name p = k)
+      \/ (exists p, In p sig /\ p_kind p = KwOnly /\ p_name p = k)
+      \/ has_varkw sig = true)) /\
+  (forall i p, nth_error pos i = Some p -> p_default p = false ->
+     i < n \/ (p_kind p = PosOrKw /\ In (p_name p) K)) /\
+  (forall p, In p sig -> p_kind p = KwOnly -> p_default p = false -> In (p_name p) K).
+
+Lemma kind_eqb_eq a b : kind_eqb a b = true <-> a = b.
+Proof. destruct a, b; simpl; split; intro H; try reflexivity; try discriminate. Qed.
+
+Lemma In_firstn_nth {A} (x : A) n l :
+  In x (firstn n l) <-> exists i, i < n /\ nth_error l i = Some x.
+Proof.
+  revert l. induction n as [|n IH]; intro l.
+  - simpl. split; [tauto|]. intros [i [Hi _]]. lia.
+  - destruct l as [|a l]; simpl.
+    + split; [tauto|]. intros [i [_ Hi]]. destruct i; discriminate.
+    + rewrite IH. split.
+      * intros [->|[i [Hi Hn]]]; [exists 0; split; [lia|reflexivity]|].
+        exists (S i). split; [lia|exact Hn].
+      * intros [[|i] [Hi Hn]]; simpl in Hn.
+        -- left. congruence.
+        -- right. exists i. split; [lia|exact Hn].
+Qed.
+
+Lemma In_skipn_nth {A} (x : A) n l :
+  In x (skipn n l) <-> exists i, n <= i /\ nth_error l i = Some x.
+Proof.
+  revert l. induction n as [|n IH]; intro l.
+  - simpl. split.
+    + intro H. apply In_nth_error in H. destruct H as [i Hi]. exists i. split; [lia|exact Hi].
+    + intros [i [_ Hi]]. eapply nth_error_In; eauto.
+  - destruct l as [|a l]; simpl.
+    + split; [tauto|]. intros [i [_ Hi]]. destruct i; discriminate.
+    + rewrite IH. split.
+      * intros [i [Hi Hn]]. exists (S i). split; [lia|exact Hn].
+      * intros [[|i] [Hi Hn]]; [lia|]. exists i. split; [lia|exact Hn].
+Qed.
+
+Lemma positional_kind sig p : In p (positional sig) -> p_kind p = PosOnly \/ p_kind p = PosOrKw.
+Proof.
+  unfold positional. intro H. apply filter_In in H. destruct H as [_ H].
+  unfold is_positional, is_kind in H. apply orb_true_iff in H.
+  destruct H as [H|H]; apply kind_eqb_eq in H; auto.
+Qed.
+
+Lemma kw_fillable_cases sig n p :
+  In p (kw_fillable sig n) <->
+  (exists i, n <= i /\ nth_error (positional sig) i = Some p /\ p_kind p = PosOrKw)
+  \/ (In p sig /\ p_kind p = KwOnly).
+Proof.
+  unfold kw_fillable, kwonly, pos_open. rewrite in_app_iff, !filter_In, In_skipn_nth.
+  unfold is_kind. rewrite !kind_eqb_eq. split.
+  - intros [[[i [Hi Hn]] Hk]|H]; [left; exists i; auto|right; exact H].
+  - intros [[i (Hi & Hn & Hk)]|H]; [left; split; [exists i; auto|exact Hk]|right; exact H].
+Qed.
+
+Theorem binds_spec sig c : binds sig c = true <-> Binds sig c.
+Proof.
+  destruct c as [n K]. rewrite binds_true_iff. unfold Binds; simpl. split.
+  - intros (Ha & Hu & Hk & Hr). split; [|split; [|split]].
+    + unfold arity_ok in Ha. apply orb_true_iff in Ha. destruct Ha as [Ha|Ha]; auto.
+      left. now apply Nat.leb_le.
+    + intros k Hin. specialize (Hk k Hin). unfold kw_ok in Hk.
+      apply andb_true_iff in Hk. destruct Hk as [Hd Ht]. apply negb_true_iff, mem_false in Hd. split.
+      * intros i p Hi Hn Hkd Hnm. apply Hd. unfold dup_names, names. apply in_map_iff.
+        exists p. split; auto. apply filter_In. split.
+        -- unfold pos_filled. apply In_firstn_nth. exists i. auto.
+        -- unfold is_kind. now apply kind_eqb_eq.
+      * apply orb_true_iff in Ht. destruct Ht as [Ht|Ht]; auto.
+        apply mem_In in Ht. unfold kw_targets, names in Ht. apply in_map_iff in Ht.
+        destruct Ht as [p [Hn Hp]]. apply kw_fillable_cases in Hp.
+        destruct Hp as [[i (Hi & Hnth & Hkd)]|[Hs Hkd]].
+        -- left. exists i, p. auto.
+        -- right. left. exists p. auto.
+    + intros i p Hnth Hdef. destruct (Nat.lt_ge_cases i n) as [Hlt|Hge]; [left; exact Hlt|right].
+      assert (Hin : In p (positional sig)) by (eapply nth_error_In; eauto).
+      destruct (positional_kind sig p Hin) as [Hkd|Hkd].
+      * exfalso. unfold unfillable in Hu. apply not_true_iff_false in Hu. apply Hu.
+        apply existsb_exists. exists p. split.
+        -- unfold pos_open. apply In_skipn_nth. exists i. auto.
+        -- unfold is_kind. rewrite Hkd, Hdef. reflexivity.
+      * split; auto. apply Hr. unfold required, names. apply in_map_iff. exists p. split; auto.
+        apply filter_In. split; [|now rewrite Hdef].
+        apply kw_fillable_cases. left. exists i. auto.
+    + intros p Hs Hkd Hdef. apply Hr. unfold required, names. apply in_map_iff. exists p. split; auto.
+      apply filter_In. split; [|now rewrite Hdef]. apply kw_fillable_cases. right. auto.
+  - intros (Ha & Hk & Hp & Hko). repeat split.
+    + unfold arity_ok. apply orb_true_iff. destruct Ha as [Ha|Ha]; auto. left. now apply Nat.leb_le.
+    + unfold unfillable. apply not_true_iff_false. intro Hex. apply existsb_exists in Hex.
+      destruct Hex as [p [Hin Hc]]. apply andb_true_iff in Hc. destruct Hc as [Hkd Hdef].
+      unfold is_kind in Hkd. apply kind_eqb_eq in Hkd. apply negb_true_iff in Hdef.
+      unfold pos_open in Hin. apply In_skipn_nth in Hin. destruct Hin as [i [Hi Hnth]].
+      destruct (Hp i p Hnth Hdef) as [Hlt|[Hc _]]; [lia|congruence].
+    + intros k Hin. destruct (Hk k Hin) as [Hnd Hok]. unfold kw_ok. apply andb_true_iff. split.
+      * apply negb_true_iff, mem_false. intro Hd. unfold dup_names, names in Hd.
+        apply in_map_iff in Hd. destruct Hd as [p [Hn Hf]]. apply filter_In in Hf. destruct Hf as [Hf Hkd].
+        unfold is_kind in Hkd. apply kind_eqb_eq in Hkd.
+        unfold pos_filled in Hf. apply In_firstn_nth in Hf. destruct Hf as [i [Hi Hnth]].
+        exact (Hnd i p Hi Hnth Hkd Hn).
+      * apply orb_true_iff. destruct Hok as [[i [p (Hi & Hnth & Hkd & Hn)]]|[[p (Hs & Hkd & Hn)]|Hv]]; auto; left;
+          apply mem_In; unfold kw_targets, names; apply in_map_iff; exists p; split; auto;
+          apply kw_fillable_cases; [left; exists i; auto|right; auto].
+    + intros r Hr. unfold required, names in Hr. apply in_map_iff in Hr. destruct Hr as [p [Hn Hf]].
+      apply filter_In in Hf. destruct Hf as [Hf Hdef]. apply negb_true_iff in Hdef. subst r.
+      apply kw_fillable_cases in Hf. destruct Hf as [[i (Hi & Hnth & Hkd)]|[Hs Hkd]].
+      * destruct (Hp i p Hnth Hdef) as [Hlt|[_ HK]]; [lia|exact HK].
+      * exact (Hko p Hs Hkd Hdef).
+Qed.
+
+(* ================================================================== non-vacuity / sanity examples *)
+Local Open Scope string_scope.
+Definition P (n : string) (k : kind) (d : bool) : param := {| p_name := n; p_kind := k; p_default := d |}.
+Definition C (n : nat) (K : list string) : call := {| c_npos := n; c_kws := K |}.
+
+(* def f(a, b=0, /, c=0, *args, d, e=0, **kw) *)
+Definition ex_full : list param :=
+  [P "a" PosOnly false; P "b" PosOnly true; P "c" PosOrKw true; P "args" VarPos false;
+   P "d" KwOnly false; P "e" KwOnly true; P "kw" VarKw false].
+Example ex_wf : wf_sig ex_full. Proof. reflexivity. Qed.
+Example ex_b1 : binds ex_full (C 1 ["d"]) = true. Proof. reflexivity. Qed.
+Example ex_b2 : binds ex_full (C 7 ["d"; "zzz"]) = true. Proof. reflexivity. Qed.
+Example ex_b3 : binds ex_full (C 0 ["d"]) = false. Proof. reflexivity. Qed.           (* missing a *)
+Example ex_b4 : binds ex_full (C 1 []) = false. Proof. reflexivity. Qed.               (* missing d *)
+Example ex_b5 : binds ex_full (C 3 ["c"; "d"]) = false. Proof. reflexivity. Qed.       (* multiple values for c *)
+Example ex_b6 : binds ex_full (C 2 ["c"; "d"]) = true. Proof. reflexivity. Qed.
+Example ex_b7 : binds ex_full (C 1 ["a"; "d"]) = true. Proof. reflexivity. Qed.        (* a goes to **kw (PEP 570) *)
+Example ex_b8 : binds ex_full (C 0 ["a"; "d"]) = false. Proof. reflexivity. Qed.       (* a still missing *)
+
+(* def g(x, y=None): no *args / **kwargs *)
+Definition ex_g : list param := [P "x" PosOrKw false; P "y" PosOrKw true].
+Example ex_g1 : binds ex_g (C 3 []) = false. Proof. reflexivity. Qed.                  (* too many positionals *)
+Example ex_g2 : binds ex_g (C 1 ["x"]) = false. Proof. reflexivity. Qed.               (* multiple values *)
+Example ex_g3 : binds ex_g (C 1 ["q"]) = false. Proof. reflexivity. Qed.               (* unexpected keyword *)
+Example ex_g4 : binds ex_g (C 0 ["y"; "x"]) = true. Proof. reflexivity. Qed.
+
+(* jnp.where(condition, x=None, y=None, /, *, size=None, fill_value=None) vs its substitute
+   (condition, x=None, y=None): the original accepts where(c, size=..), the substitute does not *)
+Definition ex_where_o : list param :=
+  [P "condition" PosOnly false; P "x" PosOnly true; P "y" PosOnly true; P "size" KwOnly true; P "fill_value" KwOnly true].
+Definition ex_where_w : list param := [P "condition" PosOrKw false; P "x" PosOrKw true; P "y" PosOrKw true].
+Example ex_where_no : sig_subsumes ex_where_w ex_where_o = false. Proof. reflexivity. Qed.
+Example ex_where_wit : subsumes_witness ex_where_w ex_where_o = Some (C 1 ["size"]). Proof. reflexivity. Qed.
+(* a generic forwarding substitute `def w( *args, **kwargs )` subsumes everything *)
+Definition ex_star : list param := [P "args" VarPos false; P "kwargs" VarKw false].
+Example ex_star_yes : sig_subsumes ex_star ex_full = true. Proof. reflexivity. Qed.
+Lemma star_subsumes_all o : sig_subsumes ex_star o = true.
+Proof.
+  apply subsumes_iff. intros [n K] _. apply binds_true_iff.
+  unfold arity_ok, unfillable, kw_ok, required, dup_names, kw_targets, kw_fillable, pos_filled, pos_open.
+  change (positional ex_star) with (@nil param).
+  rewrite firstn_nil, skipn_nil. simpl. rewrite orb_true_r. repeat split; auto. tauto.
+Qed.
+(* making a positional-only parameter also nameable is harmless; renaming a nameable one is not *)
+Example ex_posonly_relaxed : sig_subsumes [P "x" PosOrKw false] [P "x" PosOnly false] = true. Proof. reflexivity. Qed.
+Example ex_posonly_renamed : sig_subsumes [P "y" PosOrKw false] [P "x" PosOnly false] = true. Proof. reflexivity. Qed.
+Example ex_renamed : subsumes_witness [P "a" PosOrKw false] [P "A" PosOrKw false] = Some (C 0 ["A"]). Proof. reflexivity. Qed.
+(* a parameter that became keyword-only: positional use breaks *)
+Example ex_kwonly : subsumes_witness [P "x" PosOrKw false; P "k" KwOnly true] [P "x" PosOrKw false; P "k" PosOrKw true]
+                    = Some (C 2 []). Proof. reflexivity. Qed.
+(* an unknown keyword accepted through **kwargs of the original only *)
+Example ex_varkw : subsumes_witness [P "x" PosOrKw false] [P "x" PosOrKw false; P "kw" VarKw false]
+                   = Some (C 0 ["kw"; "x"]). Proof. reflexivity. Qed.
+(* reflexivity of subsumption on a signature using every kind *)
+Example ex_refl : sig_subsumes ex_full ex_full = true. Proof. reflexivity. Qed.
